@@ -1,6 +1,7 @@
 package checks
 
 import (
+	sqlite3 "github.com/mattn/go-sqlite3"
 	"context"
 	"errors"
 	"fmt"
@@ -73,7 +74,13 @@ func ifaceOptions(op string, after bool) []string {
 
 func driverOptions(op string, after bool) []string {
 	switch op {
-	case "query", "next", "exec":
+	case "exec":
+		// err-sqlite-*: the error is a sqlite3.Error with that result code, as
+		// the real driver returns (code that classifies errors by type/code
+		// sees them): NOMEM and the generic ERROR are codes hardly any table
+		// lists, BUSY one every table lists.
+		return []string{"ok", "err", "err-sticky", "err-sqlite-nomem", "err-sqlite-error", "err-sqlite-busy"}
+	case "query", "next":
 		// err-sticky: this kind of call keeps failing until the current
 		// operation is over (a store that is locked / down for a while):
 		// one deviation, however often the code retries.
@@ -82,9 +89,9 @@ func driverOptions(op string, after bool) []string {
 		return []string{"ok", "err"}
 	case "commit":
 		if after {
-			return []string{"ok", "err-rolled-back", "err-committed"}
+			return []string{"ok", "err-rolled-back", "err-committed", "err-sqlite-protocol"}
 		}
-		return []string{"ok", "err-rolled-back"}
+		return []string{"ok", "err-rolled-back", "err-sqlite-protocol"}
 	}
 	return []string{"ok"}
 }
@@ -223,6 +230,14 @@ func faultExec(run *ev.Run, view string, u *uni.U, gen *wh.CPGen, logs []wh.LogC
 			case "err-sticky":
 				sticky["drv:"+op] = true
 				return drvwrap.Action{Err: drvwrap.ErrInjected}
+			case "err-sqlite-nomem":
+				return drvwrap.Action{Err: sqlite3.Error{Code: sqlite3.ErrNomem}}
+			case "err-sqlite-error":
+				return drvwrap.Action{Err: sqlite3.Error{Code: sqlite3.ErrError}}
+			case "err-sqlite-busy":
+				return drvwrap.Action{Err: sqlite3.Error{Code: sqlite3.ErrBusy}}
+			case "err-sqlite-protocol":
+				return drvwrap.Action{Err: sqlite3.Error{Code: sqlite3.ErrProtocol}}
 			case "err-committed":
 				afterEffect = true
 				return drvwrap.Action{Err: drvwrap.ErrInjected, After: true}
